@@ -1,5 +1,6 @@
 import VlsModel.Lemmas.MonitorFn
 import VlsModel.Lemmas.MonitorView
+import VlsModel.Gen.FnMonitorView
 import VlsModel.Lemmas.FnGen
 /-
 C14 — the state-changing core of the monitor model proved equal to the function bodies that `translate/rs2lean.py`
@@ -504,6 +505,64 @@ theorem C14_fn_on_remove_block_end_height0 (s : Monitor.State) (cs : List Change
         else (if b1 = true then { s2 with closingSweptHeight := none } else s2)).height = 0 := by
       intro b1 b2; split <;> split <;> simp [hht, hz]
     rw [if_pos (this _ _)]
+
+/-! ### The views: `ChainMonitor::{funding_depth, funding_double_spent_depth, closing_depth}`, `ChainMonitorBase::as_chain_state`
+
+Public accessors, translated in their own area (`Gen/FnMonitorView.lean`, targets
+`translate/fn_targets/MonitorView.b1315.json`; `ChainState` is the struct of `policy/validator.rs`).  `get_state()`
+(= `self.state.lock().expect("lock")`) is the identity on the protected value. -/
+
+/-- the five fields of `monitor::State` the accessors read -/
+def toGenV (s : Monitor.State) : Gen.FnMonitorView.State :=
+  { height := s.height, funding_height := s.fundingHeight, funding_double_spent_height := s.dsHeight,
+    mutual_closing_height := s.mutualHeight, unilateral_closing_height := s.uniHeight }
+
+theorem view_depth_of (s : Monitor.State) (o : Option Nat) (hh : s.height < Rs.U32_MAX) :
+    (toGenV s).depth_of o = .ok (s.depthOf o) := by
+  have h1 : s.height + 1 ≤ Rs.U32_MAX := hh
+  simp [Gen.FnMonitorView.State.depth_of, toGenV, Rs.uadd, h1, State.depthOf, Rs.usatSub]
+
+/-- `ChainMonitor::funding_depth` = `State.fundingDepth` -/
+theorem C14_fn_funding_depth (s : Monitor.State) (hh : s.height < Rs.U32_MAX) :
+    (Gen.FnMonitorView.ChainMonitor.mk (toGenV s)).funding_depth = .ok s.fundingDepth := by
+  unfold Gen.FnMonitorView.ChainMonitor.funding_depth Gen.FnMonitorView.ChainMonitor.get_state
+  simp only [view_depth_of s _ hh, Rs.bind_ok, Rs.pure_eq]
+  rfl
+
+/-- `ChainMonitor::funding_double_spent_depth` = `State.dsDepth` -/
+theorem C14_fn_ds_depth (s : Monitor.State) (hh : s.height < Rs.U32_MAX) :
+    (Gen.FnMonitorView.ChainMonitor.mk (toGenV s)).funding_double_spent_depth = .ok s.dsDepth := by
+  unfold Gen.FnMonitorView.ChainMonitor.funding_double_spent_depth Gen.FnMonitorView.ChainMonitor.get_state
+  simp only [view_depth_of s _ hh, Rs.bind_ok, Rs.pure_eq]
+  rfl
+
+/-- `ChainMonitor::closing_depth` = `State.closingDepth` (`unilateral.or(mutual)`) -/
+theorem C14_fn_closing_depth (s : Monitor.State) (hh : s.height < Rs.U32_MAX) :
+    (Gen.FnMonitorView.ChainMonitor.mk (toGenV s)).closing_depth = .ok s.closingDepth := by
+  unfold Gen.FnMonitorView.ChainMonitor.closing_depth Gen.FnMonitorView.ChainMonitor.get_state
+  simp only [view_depth_of s _ hh, Rs.bind_ok, Rs.pure_eq]
+  unfold State.closingDepth orOpt
+  simp only [toGenV]
+  cases s.uniHeight <;> rfl
+
+/-- **`ChainMonitorBase::as_chain_state` = `State.chainState`**: the same four numbers, and the code's plain `u32`
+    subtraction underflows (panic in an overflow-checked build, a wrapped depth of about 2^32 in a release build)
+    exactly where the model says `none` -/
+theorem C14_fn_as_chain_state (s : Monitor.State) (hh : s.height < Rs.U32_MAX) :
+    (Gen.FnMonitorView.ChainMonitorBase.mk (toGenV s)).as_chain_state =
+      (match s.chainState with
+       | some c => .ok { current_height := c.currentHeight, funding_depth := c.fundingDepth,
+                         funding_double_spent_depth := c.dsDepth, closing_depth := c.closingDepth }
+       | none => .error .overflow) := by
+  have h1 : s.height + 1 ≤ Rs.U32_MAX := hh
+  unfold Gen.FnMonitorView.ChainMonitorBase.as_chain_state Gen.FnMonitorView.ChainMonitorBase.get_state
+    State.chainState
+  simp only [toGenV]
+  have hu1 : Rs.uadd Rs.U32_MAX s.height 1 = .ok (s.height + 1) := by simp [Rs.uadd, h1]
+  cases hf : s.fundingHeight <;> cases hd : s.dsHeight <;> cases hm : s.mutualHeight <;> cases hu : s.uniHeight <;>
+    simp only [State.plainDepth, orOpt, hu1, Rs.bind_ok, Rs.pure_eq, Option.or, Option.getD_some, Option.getD_none,
+      Rs.usub] <;>
+    (repeat' split) <;> simp_all [Rs.overflow] <;> (try subst_vars) <;> (try exact ⟨rfl, rfl, rfl, rfl⟩)
 
 /-! Non-vacuity: both outcomes occur on concrete inputs. -/
 
